@@ -123,7 +123,7 @@ MCSLock::LockSIX()  //
 
   qnode->lock_.store(kXLock, kRelaxed);
   const auto cur = lock_.exchange(new_tail | kSIXLock, kAcquire);
-  qnode->lock_.store(cur & kLockMask, kRelaxed);
+  qnode->lock_.fetch_xor(kXLock ^ (cur & kLockMask), kRelaxed);  // keep a link a successor may have added
 
   auto *tail = std::bit_cast<MCSLock *>(cur & kPtrMask);
   if (tail != nullptr) {  // wait until predecessor gives up the lock
@@ -147,7 +147,7 @@ MCSLock::LockX()  //
 
   qnode->lock_.store(kXLock, kRelaxed);
   const auto cur = lock_.exchange(new_tail | kXLock, kAcquire);
-  qnode->lock_.store(cur & kLockMask, kRelaxed);
+  qnode->lock_.fetch_xor(kXLock ^ (cur & kLockMask), kRelaxed);  // keep a link a successor may have added
 
   auto *tail = std::bit_cast<MCSLock *>(cur & kPtrMask);
   if (tail != nullptr) {  // wait until predecessor gives up the lock
